@@ -156,3 +156,25 @@ def use(instance):
     """ghost programs: instantiate a lemma schema; natively the instance is checked to be true"""
     assert instance, "lemma schema instance is false"
     return True
+
+
+def coerce_like(v, lit):
+    for t in (bool, int, float, str):
+        if isinstance(v, t):
+            return t(lit)
+    raise TypeError(type(v))
+
+
+def coercible(v, lit):
+    if v is None:
+        return True
+    try:
+        coerce_like(v, lit)
+        return True
+    except ValueError:
+        return False
+
+
+def comparable(a, b):
+    num = lambda v: isinstance(v, (int, float)) and not isinstance(v, bool)   # noqa: E731
+    return (num(a) and num(b)) or (isinstance(a, str) and isinstance(b, str))
